@@ -1,6 +1,7 @@
 package main
 
 import (
+	"math"
 	"fmt"
 
 	"github.com/tidwall/geojson/geometry"
@@ -130,6 +131,25 @@ func c18OneT(seq []exact.P, t Xf, w *rt.Worker) {
 			w.Fail("ring-"+what, func() (rt.Case, string, string) {
 				return rt.Case{Kind: "series", Op: what, A: &rt.G{K: "ring", P: f2(cfp)}, X: t.x()}, exp, got
 			})
+		}
+		// the closing vertex written with the other sign of zero is still the first vertex
+		if fp[0].X == 0 || fp[0].Y == 0 {
+			nz := fp[0]
+			if nz.X == 0 {
+				nz.X = math.Copysign(0, -1)
+			}
+			if nz.Y == 0 {
+				nz.Y = math.Copysign(0, -1)
+			}
+			zfp := append(append(make([]geometry.Point, 0, len(fp)+1), fp...), nz)
+			o4 := observeSeries(newPolyScribbled(zfp, nil, idxNone).Exterior)
+			w.States++
+			w.Evals++
+			if what, exp, got := checkSeriesT(cs, cfp, true, o4, t); what != "" && what != "segmentat" && what != "rect" {
+				w.Fail("ring-negzero-closing-"+what, func() (rt.Case, string, string) {
+					return rt.Case{Kind: "series", Op: what, A: &rt.G{K: "ring", P: f2(zfp)}, X: t.x()}, exp, got
+				})
+			}
 		}
 		// direct: repeating the closing vertex must not change the flags
 		if len(seq) >= 3 && seq[len(seq)-1] != seq[0] && (o2.convex != oc.convex || o2.cw != oc.cw) {
